@@ -31,3 +31,18 @@ def pregen_units(names):
             with open(path, "w") as f:
                 f.write(text)
     return "\n".join(errs) or None
+
+
+def rerun_generated(pid, imports_gen, terms, renames, chunk=60):
+    """Second evaluation of correspondence terms with the runner functions of the GENERATED kernels.
+    renames: {"chk_res ": "chk_gen_res ", ...} (prefix of the term).  Returns (indices of `terms` that fail, error, number run)."""
+    sel = []
+    for i, t in enumerate(terms):
+        for a, b in renames.items():
+            if t.startswith(a):
+                sel.append((i, b + t[len(a):]))
+                break
+    if not sel:
+        return [], None, 0
+    fail, err = core.run_cases(pid + "_gen", imports_gen, [t for _, t in sel], chunk=chunk)
+    return sorted({sel[j][0] for j in fail}), err, len(sel)
